@@ -18,6 +18,10 @@ def INCLUDE(name):
 
 def replay(ob):
     n = ob["name"]
+    if "folding.shape." in n:
+        return HEAD + "main(['shape_search'])\n"
+    if "folding." in n and "any_rank" in n:
+        return HEAD + "main(['reshape_abs_search', 'abs_add'])\n"
     if "any_rank" in n or (".loop" in n and n.split(".loop")[0] in LOOP_FUNCTIONS[:3]):
         return HEAD + "main(['expand_search'])\n"
     if "ScatterAllDynamic" in n:
